@@ -77,3 +77,50 @@ META = {
         note="Observes the calling thread only; caller-owned buffers are allocated outside the armed window.",
         design="5/C09"),
 }
+
+PLANS.update({
+    "C10": {"stages": [st("rel", "reset", 40000, 600000, death_prop="C03", floor={"compared_steps": 50000})]},
+    "C11": {"stages": [st("rel", "chan", 30000, 400000, death_prop="C03", floor={"compared_steps": 50000})]},
+    "C12": {"stages": [st("rel", "set", 60000, 1000000, death_prop="C03", floor={"set_ratio_calls": 100000, "exact_bound_calls": 10000})]},
+    "C13": {"stages": [st("chk", "bad", 40000, 600000, death_prop="C13", floor={"malformed_calls": 50000})]},
+    "C16": {"stages": [st("rel", "wrap", 40000, 600000, death_prop="C03", floor={"compared_steps": 50000})]},
+    "C17": {"stages": [st("rel", "prec", 24000, 300000, death_prop="C03", floor={"compared_steps": 50000})]},
+})
+RULES.update({
+    "C10": "case = (configuration, dirtying history incl. pending ramps / reduced chunk size / masks / malformed calls, reset, random continuation); "
+           "the reset instance and a freshly constructed twin are driven in lock-step with the same continuation and compared bit-for-bit "
+           "(outputs, counts, all getters); distinct = distinct (sample type, configuration class, pre-shape, post-shape)",
+    "C11": "case = (configuration with 1..8 channels, history); either an n-channel instance against n single-channel twins on per-channel "
+           "distinct signals, or a constant-mask run against an unmasked twin (inactive channels passed as empty slices at random), compared bit-for-bit; "
+           "sentinel scan of inactive output channels; distinct = (sample type, configuration class, channels, twin kind, history shape)",
+    "C12": "case = configuration + script of 10..60 setter calls (exact bounds, 1..5-ulp neighbours inside and outside, interior, exterior, NaN/inf/0/negative/subnormal; "
+           "chunk sizes 0,1,max,max+1,usize::MAX,random) interleaved with processing calls on the instance and on a twin that only sees the accepted calls; "
+           "trivial = none; distinct = (sample type, configuration class, script id mod 64)",
+    "C13": "case = valid history with 1..6 malformed calls (too few/many input or output channels, one active channel short by 1..all, mask too short/long, "
+           "also through process()) inserted at random points, lock-step twin without them; case 0 = constructor table; trivial = no malformed shape was applicable "
+           "(e.g. zero-length requirement); distinct = (sample type, configuration class, history shape, malformed shapes)",
+    "C16": "case = wrapper-heavy history (process(), process_partial(_into_buffer)(Some|None), flush tails) against a twin that only uses process_into_buffer "
+           "on explicitly zero-padded input, or Box<dyn VecResampler> against direct calls; bit-exact comparison of outputs, counts and getters per call",
+    "C17": "case = (configuration, history) run on an f32 and an f64 instance with the same (f32-rounded) input; getters and returned counts compared at every step, "
+           "values against K*eps32*peak, plus least-squares gain and shape residual; 15% of the cases use large sinc tables (L*N up to 3e5)",
+})
+META.update({
+    "C10": dict(technique="runtime monitoring: lock-step differential twin (reset instance vs fresh instance), bit-exact comparison of outputs, counts and getters",
+                text="Exploration. After a random dirtying history and reset(), the instance and a newly constructed twin are driven with the same random continuation; any bit of difference in outputs, returned counts or getters refutes the property.",
+                note="Equality is between two executions of the same code, so no numeric tolerance is involved; histories that hit a C03 event are counted as inconclusive.", design="5/C10"),
+    "C11": dict(technique="runtime monitoring: differential twins (n-channel vs n single-channel; masked vs unmasked) + sentinel scan of inactive outputs",
+                text="Exploration. Per-channel bit-exact comparison against single-channel twins, and constant-mask runs against unmasked twins with sentinel-filled inactive outputs.",
+                note="Bit-exact: all instances execute the same arithmetic.", design="5/C11"),
+    "C12": dict(technique="runtime monitoring: reference model of the documented intervals as oracle over hostile setter arguments + twin that never sees rejected calls",
+                text="Exploration. Every setter call is judged against the documented interval computed in f64 as a caller would; a 2-ulp band outside each bound is indeterminate; rejected calls must return the documented error with the right fields and leave no trace (getters, twin).",
+                note="The oracle demands acceptance of the computed bounds original/max and original*max themselves.", design="5/C12"),
+    "C13": dict(technique="runtime monitoring: fault injection of malformed calls into valid histories (debug-assertion build), error-variant oracle, sentinels, lock-step twin",
+                text="Exploration. Malformed processing calls of every shape are injected at random points; each must return the matching ResampleError with expected/actual fields, not panic, not write a single output frame and leave the instance bit-identical to a twin that never saw it. Constructor table for invalid arguments.",
+                note="One malformation per call so that the expected variant is unambiguous.", design="5/C13"),
+    "C16": dict(technique="runtime monitoring: lock-step differential twin (convenience wrappers / boxed trait object vs core call on zero-padded input), bit-exact",
+                text="Exploration. process(), process_partial(_into_buffer) with Some(shorter)/None and the VecResampler trait object are compared call by call with process_into_buffer on explicitly zero-padded input.",
+                note="Bit-exact comparison of two executions of the same arithmetic.", design="5/C16"),
+    "C17": dict(technique="runtime monitoring: lock-step differential twin f32 vs f64 with rounding-bound oracle and control-decision equality",
+                text="Exploration. The f32 and f64 instantiations run the same histories; every getter and returned count must agree at every step and every f32 output value must equal the rounded f64 value within K*eps32*peak (K = 16+L/2 sinc, 32 polynomial, 64+16*log2(FFT) FFT); least-squares gain within 32+L/8 eps32.",
+                note="K is a guard-banded figure: measured worst 11.6 (sinc), 3.3 (polynomial), 31 (FFT) eps32*peak on the repaired tree.", design="5/C17"),
+})
